@@ -17,18 +17,53 @@ def parse_scheds(out):
     return res
 
 
-def gen_cfg(n, maxtime, budget, faults, toggles, removal, remotes, histmax, maxatt, crashes, startby, healodds=3):
-    return ("SPECIFICATION Spec\nCONSTANTS\n N = %d\n MaxTime = %d\n MaxSkew = 0\n Budget = %d\n Variant = \"code\"\n"
+def parse_goals(out, max_per_goal=4):
+    """schedules printed by the goal "invariants" of Lock.tla (BFS runs with Emit = TRUE): list of (goal name, steps);
+    every TLC worker prints its first witness of a goal, the distinct ones are kept (shortest first)"""
+    per = {}
+    for m in re.finditer(r'^<<"GOAL", "([^"]*)", "(.*)">>\s*$', out, re.M):
+        try:
+            steps = json.loads(json.loads('"' + m.group(2) + '"'))
+        except Exception:
+            raise verif.MachineryError("cannot parse a goal schedule printed by TLC")
+        per.setdefault(m.group(1), [])
+        if steps not in per[m.group(1)]:
+            per[m.group(1)].append(steps)
+    res = []
+    for g in sorted(per):
+        for steps in sorted(per[g], key=lambda st: (len(st), json.dumps(st, sort_keys=True)))[:max_per_goal]:
+            res.append((g, steps))
+    return res
+
+
+def goal_suffix(n):
+    """steps appended to a goal witness so that the real code has time to react: every process gets turns, the short
+    timers fire, and more than the excusable margin (1 min + stall) passes"""
+    st = lambda p: {"op": "step", "p": p, "x": False, "k": ""}
+    w = {"op": "wait", "p": 0, "x": False, "k": ""}
+    t = {"op": "tick", "p": 0, "x": False, "k": ""}
+    turns = [st(p) for _ in range(2) for p in range(1, n + 1)]
+    return turns + [w] + turns + [w] + turns + [w] + turns + [t] + turns + [w] + turns + [t] + turns + [w]
+
+
+def gen_cfg(n, maxtime, budget, faults, toggles, removal, remotes, histmax, maxatt, crashes, startby, healodds=3,
+            maxskew=0, listlag="FALSE", fixskew="FALSE", edge="FALSE", startfrom=0):
+    return ("SPECIFICATION Spec\nCONSTANTS\n N = %d\n MaxTime = %d\n MaxSkew = %d\n Budget = %d\n Variant = \"code\"\n"
             " Faults <- %s\n MaxToggle = %d\n Removal = %s\n Remotes <- %s\n MaxWaits = 4\n HistMax = %d\n Emit = TRUE\n"
-            " MaxAtt = %d\n Crashes = %s\n StartBy = %d\n HealOdds = %d\nCHECK_DEADLOCK FALSE\n"
-            % (n, maxtime, budget, faults, toggles, removal, remotes, histmax, maxatt, crashes, startby, healodds))
+            " MaxAtt = %d\n Crashes = %s\n StartBy = %d\n StartFrom = %d\n HealOdds = %d\n ListLag = %s\n FixSkew = %s\n Edge = %s\n"
+            "CHECK_DEADLOCK FALSE\n"
+            % (n, maxtime, maxskew, budget, faults, toggles, removal, remotes, histmax, maxatt, crashes, startby, startfrom,
+               healodds, listlag, fixskew, edge))
 
 
 def generate(ctx, families, per_family, jobs=6):
     """families: list of (name, n, cfg text).  Runs `tlc -simulate` per family (split over several seeds, in
     parallel) and returns the list of schedule dicts for the harness (deduplicated)."""
     tasks = []
-    for fi, (name, n, cfg) in enumerate(families):
+    attrs = {}
+    for fi, fam in enumerate(families):
+        name, n, cfg = fam[:3]
+        attrs[name] = fam[3] if len(fam) > 3 else {}
         parts = max(1, min(4, per_family // 150))
         for k in range(parts):
             tasks.append((name, n, cfg, per_family // parts + 1, ctx.seed * 1000 + fi * 10 + k))
@@ -48,7 +83,7 @@ def generate(ctx, families, per_family, jobs=6):
                 if key in seen or len(steps) < 4:
                     continue
                 seen.add(key)
-                scheds.append({"id": "%s-%d-%d" % (name, seed, i), "fam": name, "n": n, "steps": steps})
+                scheds.append(dict({"id": "%s-%d-%d" % (name, seed, i), "fam": name, "n": n, "steps": steps}, **attrs[name]))
     if not scheds:
         raise verif.MachineryError("TLC generated no schedules")
     return scheds
@@ -69,8 +104,21 @@ def design_runs(ctx, positive, twins, jobs=4):
                 if not (set(r["violated"]) & set(twins[c])):
                     raise verif.MachineryError("negative twin Lock_%s.cfg was not refuted (%s), see %s" % (c, r["violated"], r["dir"]))
             out.append({"cfg": "Lock_%s.cfg" % c, "states": r["states"], "transitions": r["transitions"], "depth": r["depth"],
-                        "refuted": r["violated"], "twin": c in twins})
+                        "refuted": r["violated"], "twin": c in twins, "goals": parse_goals(r["out"])})
     return out
+
+
+def goal_scheds(design, attrs):
+    """the goal witnesses printed by the design runs `design` (list returned by design_runs) as schedules for the
+    harness; attrs: cfg name -> extra schedule attributes (n, lag, budget)"""
+    res = []
+    for d in design:
+        a = dict(attrs.get(d["cfg"], {}))
+        n = a.pop("n", 2)
+        for j, (g, steps) in enumerate(d["goals"]):
+            res.append(dict({"id": "goal-%s-%s-%d" % (d["cfg"][5:-4], g, j), "fam": "goal", "n": n, "steps": steps + goal_suffix(n)}, **a))
+        d["goals"] = [g for g, _ in d["goals"]]
+    return res
 
 
 def write_scheds(ctx, scheds, name="scheds.ndjson"):
